@@ -412,7 +412,18 @@ def exhaustive_small():
     return ops
 
 
+def private_rng(rng, salt):
+    """a generator of its own, derived from the shared one WITHOUT advancing it: the streams of the families that come
+    after this one in `wire_checks.family_gens()` stay what they are without the Icmp family"""
+    import random
+    return random.Random(f"{salt}:{rng.getstate()[1][:4]}")
+
+
 def gen_parse(rng, n):
+    import os
+    if os.environ.get("WIRE_GEN_ICMP_OFF"):
+        return []
+    rng = private_rng(rng, "icmp-parse")
     ops = exhaustive_small()
     target = n + len(ops)
     while len(ops) < target:
@@ -707,6 +718,10 @@ BUILD_GENS = [(prog_icmp, 5), (prog_icmp6_nd, 5), (prog_icmp6_mld, 3), (prog_icm
 
 
 def gen_build(rng, n):
+    import os
+    if os.environ.get("WIRE_GEN_ICMP_OFF"):
+        return []
+    rng = private_rng(rng, "icmp-build")
     ops = known_finding_probes()
     have_ip, have_ip6 = modelled("IP"), modelled("IPv6")
     fs, ws = zip(*BUILD_GENS)
